@@ -319,11 +319,13 @@ func ccrName(d *DiamOp) string {
 // ---------------------------------------------------------------- C08
 
 var c08Costs = []string{"1", "2", "3", "7", "10", "100", "999", "1000", "65536", "4294967295", "0", "0", "00", "1.5", "0.5", "2.50", "10.0", ".5", "5.",
+	"010", "007", "08", "09", "0100", "0017", "0.17", "0.08", "0.9", "+5", "1_000",
 	"", "abc", "1e3", "-1", " 2", "4294967296", "99999999999999999999", "1,5", "0x10"}
 
 // tariffs of the whole-system family: plain positive integers, among them values that a
 // single-precision float cannot represent (above 2^24) and the 32-bit extremes
-var c08WholeCosts = []string{"1", "2", "3", "7", "10", "100", "999", "1000", "65536", "16777217", "33554433", "123456789", "4294967295"}
+var c08WholeCosts = []string{"1", "2", "3", "7", "10", "100", "999", "1000", "65536", "16777217", "33554433", "123456789", "4294967295",
+	"4294967301", "8589934597", "42949672960", "010", "08"} // the last ones: beyond 32 bits (both sides reduce modulo 2^32), leading zeros
 
 // genC08Whole: the CHF in front of the rating server; the operator changes the stored
 // tariff between usage reports. After every update the unit cost the CHF holds must be the
